@@ -151,6 +151,18 @@ fn probe_mode(cases_path: &str, crate_dir: &str) {
                 b.add_datum::<lab_types::P4, _>("first").unwrap();
                 b.close_record_variant();
             }
+            let twin = c["twin"].as_str().unwrap_or("none");
+            let true_info = |sz: u64, al: u64| DatumDefinitionOverride {
+                type_name: None,
+                size: Some(sz as usize),
+                align: Some(al as usize),
+                allow_uninit: Some(false),
+            };
+            if twin == "before" {
+                let ov = true_info(c["size"].as_u64().unwrap(), c["align"].as_u64().unwrap());
+                with_key_override!(key, b, "twin", ov).unwrap();
+                b.close_record_variant();
+            }
             let ov = DatumDefinitionOverride {
                 type_name: None,
                 size: Some(c["rsize"].as_u64().unwrap() as usize),
@@ -159,6 +171,11 @@ fn probe_mode(cases_path: &str, crate_dir: &str) {
             };
             with_key_override!(key, b, "target", ov).unwrap();
             b.close_record_variant();
+            if twin == "after" {
+                let ov = true_info(c["size"].as_u64().unwrap(), c["align"].as_u64().unwrap());
+                with_key_override!(key, b, "twin", ov).unwrap();
+                b.close_record_variant();
+            }
             let def = b.build();
             generate(&def, &GeneratorConfig::default())
         }));
